@@ -16,6 +16,8 @@ mod idm_lock;
 mod idm_reset;
 mod idm_roles;
 mod idm_token;
+mod lifecycle;
+mod media;
 mod mirror;
 mod rangeoracle;
 mod node;
@@ -42,6 +44,8 @@ fn registry() -> Vec<Box<dyn Scenario>> {
     v.extend(idm_front::scenarios());
     v.extend(idm_access::scenarios());
     v.extend(sessions::scenarios());
+    v.extend(media::scenarios());
+    v.extend(lifecycle::scenarios());
     v.extend(idm_token::scenarios());
     v
 }
